@@ -23,6 +23,7 @@ type c19Case struct {
 	Threshold int      `json:"threshold"`
 	FileRule  bool     `json:"file_rule"`
 	Global    bool     `json:"global_threshold_2"`
+	GlobalThr int      `json:"global_threshold,omitempty"` // 0 with Global set = 2
 	AuthBy    []string `json:"authorization_signers"`
 	Reviewers []string `json:"code_review_approvers"`
 	Commits   []string `json:"feature_commits"` // "<signer>:<path>"
@@ -30,7 +31,14 @@ type c19Case struct {
 }
 
 func (c c19Case) String() string {
-	return fmt.Sprintf("thr=%d file-rule=%v global=%v auth-by=%s reviewers=%s feature=%s merge-commit=%v", c.Threshold, c.FileRule, c.Global, strings.Join(c.AuthBy, "+"), strings.Join(c.Reviewers, "+"), strings.Join(c.Commits, ","), c.Merge)
+	return fmt.Sprintf("thr=%d file-rule=%v global=%d auth-by=%s reviewers=%s feature=%s merge-commit=%v", c.Threshold, c.FileRule, c.globalThr(), strings.Join(c.AuthBy, "+"), strings.Join(c.Reviewers, "+"), strings.Join(c.Commits, ","), c.Merge)
+}
+
+func (c c19Case) globalThr() int {
+	if c.Global && c.GlobalThr == 0 {
+		return 2
+	}
+	return c.GlobalThr
 }
 
 func c19Policy(cs c19Case) *hist.PolicySpec {
@@ -45,7 +53,7 @@ func c19Policy(cs c19Case) *hist.PolicySpec {
 	}
 	p.Apps = []hist.AppSpec{{Name: "APP", Key: "APPKEY", Trusted: true}}
 	if cs.Global {
-		p.Global = []hist.GlobalSpec{{Name: "two-people", Kind: "threshold", Patterns: []string{"git:" + refMain}, Threshold: 2}}
+		p.Global = []hist.GlobalSpec{{Name: "n-people", Kind: "threshold", Patterns: []string{"git:" + refMain}, Threshold: cs.globalThr()}}
 	}
 	return p
 }
@@ -189,7 +197,7 @@ func c19Run(cs c19Case, col *evid.Collector) {
 			col.Violation("C19:"+kind+":"+ctx, fmt.Sprintf("%s: VerifyMergeable=%s (err=%v); merge recorded by %q: VerifyRefFull err=%v", cs, pred, perr, rec, verr), cs)
 		}
 	}
-	col.Class("thr%d/file=%v/global=%v/merge=%v/pred=%s/%s", cs.Threshold, cs.FileRule, cs.Global, cs.Merge, pred, strings.Join(outcomes, ","))
+	col.Class("thr%d/file=%v/global=%d/merge=%v/pred=%s/%s", cs.Threshold, cs.FileRule, cs.globalThr(), cs.Merge, pred, strings.Join(outcomes, ","))
 }
 
 func orNoneS(s string) string {
@@ -218,7 +226,7 @@ func TestC19(t *testing.T) {
 		}
 	}()
 	thorough := evid.Thorough()
-	col.Rule("full product of {delegation threshold 1,2,3} x {file rule on src/* or none} x {global threshold 2 or none} x {authorization for (main, tip, predicted merge tree) signed by every subset of {P0,P1,P2}} x {code-review approvers: every subset of {alice(P1), bob(P2)}} x {feature history: one commit by P0/P1/unknown touching src/a or doc/b; thorough: also two-commit histories} x {fast-forward | merge commit carrying the predicted tree}; for each tuple VerifyMergeable's answer is compared with VerifyRefFull after the merge is recorded by each of 5 recorders (P0, P1, P2, unknown key, unsigned). No expected value is written by hand. A class is (policy shape, prediction, vector of per-recorder outcomes)")
+	col.Rule("full product of {delegation threshold 1,2,3} x {file rule on src/* or none} x {global threshold 2, 3 or none} x {authorization for (main, tip, predicted merge tree) signed by every subset of {P0,P1,P2}} x {code-review approvers: every subset of {alice(P1), bob(P2)}} x {feature history: one commit by P0/P1/unknown touching src/a or doc/b; thorough: also two-commit histories} x {fast-forward | merge commit carrying the predicted tree}; for each tuple VerifyMergeable's answer is compared with VerifyRefFull after the merge is recorded by each of 5 recorders (P0, P1, P2, unknown key, unsigned). No expected value is written by hand. A class is (policy shape, prediction, vector of per-recorder outcomes)")
 	col.Assume("the branch's previous entry is unskipped and no policy or attestation entry intervenes (as quantified); merges are file-disjoint (memstore's GetMergeTree); the recorder of a merge commit also signs that commit")
 	if rf := evid.ReplayFile(); rf != "" {
 		var cs c19Case
@@ -258,7 +266,7 @@ func TestC19(t *testing.T) {
 	item := 0
 	for _, thr := range []int{1, 2, 3} {
 		for _, fr := range []bool{false, true} {
-			for _, gl := range []bool{false, true} {
+			for _, gl := range []int{0, 2, 3} {
 				for _, au := range subsets([]string{"P0", "P1", "P2"}) {
 					for _, rv := range subsets([]string{"alice", "bob"}) {
 						for _, f := range features {
@@ -270,7 +278,7 @@ func TestC19(t *testing.T) {
 								if col.Expired() {
 									return
 								}
-								c19Run(c19Case{Threshold: thr, FileRule: fr, Global: gl, AuthBy: au, Reviewers: rv, Commits: f, Merge: merge}, col)
+								c19Run(c19Case{Threshold: thr, FileRule: fr, Global: gl > 0, GlobalThr: gl, AuthBy: au, Reviewers: rv, Commits: f, Merge: merge}, col)
 							}
 						}
 					}
